@@ -6,6 +6,15 @@ import sys
 pid, wt = sys.argv[1], sys.argv[2]
 n = int(sys.argv[3]) if len(sys.argv) > 3 else 2
 extra = sys.argv[4] if len(sys.argv) > 4 else ""
+k0 = int(sys.argv[5]) if len(sys.argv) > 5 else 1
+if extra == "TAKEN":
+    # one-line summaries of the ideas earlier agents already used for this property
+    sys.path.insert(0, "/verif/tools")
+    from write_seed_meta import INFO
+    taken = [v[1] for k, v in sorted(INFO.items()) if v[0] == pid]
+    extra = ("Ideas ALREADY USED by earlier participants for this property (do not repeat them or close variants; "
+             "look at less obvious places, other files, other mechanisms of the property):\n"
+             + "\n".join(f"  - {t}" for t in taken) + "\n")
 for line in open("/verif/properties.jsonl"):
     p = json.loads(line)
     if p["id"] == pid:
@@ -40,7 +49,7 @@ Requirements for each change:
   The demo must be deterministic (fix seeds) and finish in under 2 minutes.
 - Work ONLY inside {wt} and /tmp/seed_out. Never touch /repo or /verif. No network is available.
 
-Deliverables: for change k (k = 1..{n}) create the directory /tmp/seed_out/{pid}_k/ containing
+Deliverables: for change k (k = {k0}..{k0 + n - 1}) create the directory /tmp/seed_out/{pid}_k/ containing
   patch.diff   (output of `git -C {wt} diff` for that change alone, relative to the worktree HEAD)
   demo.py      (the demonstration)
   notes.md     (3-10 lines: what the change is, why it breaks the property, what specific
